@@ -60,12 +60,13 @@ def gen_cases(tier, seed):
         yield C(w="solve", shape=shape, loss=loss, par=par, solver=["SGD", "Adam", "Adagrad"][i % 3], sparse=bool((i // 3) % 2),
                 rate=float(rng.choice([1e-3, 1e-2, 0.3, 3.0])), max_fails=int(rng.integers(0, 3)), epoch_iters=int(rng.integers(1, 6)),
                 max_iters=int(rng.integers(1, 7)), R=int(rng.integers(1, 3)), via_gcp_opt=bool(i % 4 == 0),
-                f_est_tol=[None, None, "above-start", "below-start"][int(rng.integers(0, 4))])
-    for i in range(10 if tier == "quick" else 100):
+                f_est_tol=[None, None, "above-start", "below-start"][int(rng.integers(0, 4))],
+                sampler=[None, None, "strat/strat", "strat/semistrat", "strat/semistrat", "uniform/uniform"][int(rng.integers(0, 6))])
+    for i in range(24 if tier == "quick" else 160):
         shape = [int(s) for s in rng.integers(2, 5, size=int(rng.integers(2, 4)))]
         loss, par = losses[i % 4]
         yield C(w="lbfgsb", shape=shape, loss=loss, par=par, R=int(rng.integers(1, 3)), maxiter=int(rng.integers(1, 8)), masked=bool(i % 3 == 0),
-                maxls=[None, None, 1, 2, 3][int(rng.integers(0, 5))], via_gcp_opt=bool(i % 2))
+                maxls=[None, None, 1, 2, 3][int(rng.integers(0, 5))], via_gcp_opt=bool(i % 2), mask_form=["ndarray", "tensor"][(i // 2) % 2])
     for i in range(24 if tier == "quick" else 240):
         yield C(w="reuse", solver=["SGD", "Adam", "Adagrad", "LBFGSB"][i % 4], loss=["GAUSSIAN", "POISSON"][(i // 4) % 2],
                 shapes=[[int(s) for s in rng.integers(2, 5, size=int(rng.integers(2, 4)))] for _ in range(3)], same_size=bool(i % 2),
@@ -249,11 +250,24 @@ def _w_solve(case, ctx, rng):
     ctx.feat(solver=case["solver"], loss=loss, sparse=sparse, finite_lb=bool(np.isfinite(lb)), via_gcp_opt=case["via_gcp_opt"])
     m0dig = state_digest(M0)
     xdig = state_digest(X)
+    smp = None
+    skind = case.get("sampler")
+    if skind and sparse:
+        nnz_, nz_ = int(X.nnz), int(Xd.size - X.nnz)
+        cnt = SAM.StratifiedCount(max(1, nnz_ // 2), max(1, nnz_ // 2))
+        fsam = SAM.StratifiedCount(max(1, nnz_), max(1, min(nz_, nnz_)))
+        if skind == "strat/strat":
+            smp = SAM.GCPSampler(X, SAM.Samplers.STRATIFIED, fsam, SAM.Samplers.STRATIFIED, cnt)
+        elif skind == "strat/semistrat":
+            smp = SAM.GCPSampler(X, SAM.Samplers.STRATIFIED, fsam, SAM.Samplers.SEMISTRATIFIED, cnt)
+        else:
+            smp = SAM.GCPSampler(X, SAM.Samplers.UNIFORM, max(2, Xd.size // 2), SAM.Samplers.UNIFORM, max(2, Xd.size // 3))
+    ctx.feat(sampler=(skind if smp is not None else "default"))
     with Tap() as tap:
         if case["via_gcp_opt"]:
-            r = ctx.call("gcp_opt", ttb.gcp_opt, X, R, getattr(Objectives, loss), solver, init=M0.copy(), printitn=0)
+            r = ctx.call("gcp_opt", ttb.gcp_opt, X, R, getattr(Objectives, loss), solver, init=M0.copy(), printitn=0, **({} if smp is None else {"sampler": smp}))
         else:
-            r = ctx.call(case["solver"] + ".solve", solver.solve, M0, X, fh, gh, lb)
+            r = ctx.call(case["solver"] + ".solve", solver.solve, M0, X, fh, gh, lb, *([] if smp is None else [smp]))
     op = "gcp_opt" if case["via_gcp_opt"] else case["solver"] + ".solve"
     if not r.ok:
         if isinstance(r.exc, ValueError) and "Infinite gradient" in str(r.exc):
@@ -313,14 +327,38 @@ def _w_lbfgsb(case, ctx, rng):
     solver = OPT.LBFGSB(maxiter=case["maxiter"], **kwls)
     ctx.feat(loss=loss, masked=case["masked"], maxls=case.get("maxls"))
     m0dig = state_digest(M0)
-    r = ctx.call("LBFGSB.solve", solver.solve, M0, X, fh, gh, lb, mask)
+    via = bool(case.get("via_gcp_opt"))
+    mask_form = case.get("mask_form", "ndarray")
+    ctx.feat(via_gcp_opt=via, mask_form=(mask_form if mask is not None else None))
+
+    def run(Xarg):
+        if via:
+            marg = None if mask is None else (ttb.tensor(mask.copy()) if mask_form == "tensor" else mask.copy())
+            return ctx.call("gcp_opt", ttb.gcp_opt, Xarg, R, (fh, gh, lb), OPT.LBFGSB(maxiter=case["maxiter"], **kwls), init=M0.copy(), mask=marg, printitn=0)
+        return ctx.call("LBFGSB.solve", OPT.LBFGSB(maxiter=case["maxiter"], **kwls).solve, M0, Xarg, fh, gh, lb, mask)
+    r = run(X)
     if not r.ok:
         ctx.check(False, "LBFGSB.solve", "RAISE:" + type(r.exc).__name__, f"{type(r.exc).__name__}: {r.exc} | {r.tb}")
         return
-    M, info = r.value
+    M, info = (r.value[0], r.value[2]) if via else r.value
     f0 = evaluate(M0, X, mask, fh, None)
     f1 = evaluate(M, X, mask, fh, None)
     ctx.check(f1 <= f0 + 1e-10 * max(1.0, abs(f0)), "LBFGSB.solve", "WORSE-THAN-START", f"objective of the result {f1!r} > start {f0!r}")
+    if mask is not None and bool((mask == 0).any()):
+        # entries declared missing carry no information: other (domain-valid, wildly different) values stored there change nothing
+        X2d = Xd.copy()
+        fresh = _loss_data(np.random.default_rng(case["cseed"] + 5), shape, loss)
+        X2d[mask == 0] = (fresh * (40.0 if loss in ("GAUSSIAN", "HUBER") else 1.0) + (-999.0 if loss in ("GAUSSIAN", "HUBER") else 0.0))[mask == 0]
+        if loss not in ("GAUSSIAN", "HUBER"):
+            X2d[mask == 0] = np.where(X2d[mask == 0] == Xd[mask == 0], fresh.max() - X2d[mask == 0], X2d[mask == 0])
+        r2 = run(ttb.tensor(X2d.copy()))
+        if r2.ok:
+            M2 = r2.value[0]
+            a, b = denote(M), denote(M2)
+            ctx.check(a.shape == b.shape and bool(np.max(np.abs(a - b)) <= 1e-12 * max(1.0, float(np.max(np.abs(a))))), "LBFGSB.solve", "MISSING-ENTRIES-MATTER",
+                      lambda: f"the fit changed (max diff {np.max(np.abs(a - b))!r}) when only the values stored at masked-out positions were changed")
+        else:
+            ctx.check(False, "LBFGSB.solve", "RAISE:" + type(r2.exc).__name__, f"second run (other values at masked positions): {r2.exc}")
     # (scipy's final_f after an abandoned line search is the value at the rejected trial point: not an oracle for the returned model)
     ctx.check(all(bool((f >= lb - 1e-12).all()) for f in M.factor_matrices), "LBFGSB.solve", "BOUND", "factor entry below the lower bound")
     ctx.check(state_digest(M0) == m0dig, "LBFGSB.solve", "MUTATED", "initial model changed", who="guess")
